@@ -274,7 +274,7 @@ E = 1.0 / 1024
 
 def gen_plan(j, rng):
     ops = []
-    lifetime = rng.choice([None, None, 30, 3600])
+    lifetime = rng.choice([None, None, 30, 3600, 86400, 7 * 86400, 90000, 1, 43200])
     if lifetime is not None:
         ops.append({"op": "lifetime", "s": lifetime})
     # the library learns that the device is V3 from the first authenticate() call (good, bad or faulted)
@@ -335,7 +335,7 @@ def gen_plan(j, rng):
             margin = rng.choice([60, 120])
             op = {"op": "jump", "s": rng.choice([lt + margin, max(1, lt - margin), 5])}
         elif r < 0.78:
-            op = {"op": "lifetime", "s": rng.choice([None, 30, 3600])}
+            op = {"op": "lifetime", "s": rng.choice([None, 30, 3600, 86400, 2 * 86400, 86401])}
             lifetime = op["s"]
         elif r < 0.88:
             op = {"op": "dev_close", "rst": rng.random() < 0.4}
